@@ -115,41 +115,57 @@ Proof.
   apply eres_nat_eqb_eq in C1. unfold with_node, s_with_node. rewrite C1. reflexivity.
 Qed.
 
-Lemma leaf_ops_agree : forall b s p pn (k : nat -> string -> option nat -> st * out),
-  Forall (fun x => fst x = true) (leaf_corner b (heap s) p pn) ->
-  with_leaf b s p k = s_with_leaf s p k /\
-  (pn = true -> forall pi nm c, s_leaf (heap s) p = inl (pi, nm, c) -> is_dir (heap s) pi = true).
+(* entry-level operations that do not test the parent: the lookups agree *)
+Lemma leaf_ops_agree : forall b s p (k : nat -> string -> option nat -> st * out),
+  Forall (fun x => fst x = true) (leaf_corner b (heap s) p false) ->
+  with_leaf b s p k = s_with_leaf s p k.
 Proof.
-  intros b s p pn k H. unfold leaf_corner in H. clauses H.
-  apply leaf_eqb_eq in C2. split.
-  - unfold with_leaf, s_with_leaf. rewrite C2. reflexivity.
-  - intros Hp pi nm c Hs. rewrite C2, Hs in C0. subst pn. rewrite andb_true_r in C0.
-    destruct (is_dir (heap s) pi); [reflexivity | discriminate].
+  intros b s p k H. unfold leaf_corner in H. clauses H. cbn [andb] in C1. rewrite orb_false_r in C1.
+  apply leaf_eqb_eq in C1. unfold with_leaf, s_with_leaf. rewrite C1. reflexivity.
+Qed.
+
+(* operations that test "parent is a directory" themselves: either the lookups
+   agree, or the code found a non-directory parent where the reference says ENOTDIR *)
+Lemma leaf_chk_agree : forall b s p (k1 k2 : nat -> string -> option nat -> st * out),
+  (forall pi nm c, k1 pi nm c = k2 pi nm c) ->
+  Forall (fun x => fst x = true) (leaf_corner b (heap s) p true) ->
+  with_leaf b s p (fun pi base c => if negb (is_dir (heap s) pi) then (s, OErr EOther) else k1 pi base c) =
+  s_with_leaf s p (fun pi nm c => if negb (is_dir (heap s) pi) then (s, OErr EOther) else k2 pi nm c).
+Proof.
+  intros b s p k1 k2 Hk H. unfold leaf_corner in H. clauses H. cbn [andb] in C1.
+  unfold with_leaf, s_with_leaf.
+  destruct (leaf_eqb (m_leaf b (heap s) p) (s_leaf (heap s) p)) eqn:El.
+  - apply leaf_eqb_eq in El. rewrite El. destruct (s_leaf (heap s) p) as [[[pi nm] c]|e]; [|reflexivity].
+    rewrite Hk. reflexivity.
+  - cbn [orb] in C1. unfold leaf_nondir_parent in C1.
+    destruct (m_leaf b (heap s) p) as [[[pi nm] c]|e]; [|discriminate].
+    destruct (s_leaf (heap s) p) as [x|e]; [discriminate|]. destruct e; try discriminate.
+    rewrite C1. reflexivity.
 Qed.
 
 Lemma refine_mkdir : forall b s p perm, E b s (Mkdir p perm) = true ->
   model_step b s (Mkdir p perm) = spec_raw s (Mkdir p perm).
 Proof.
   intros b s p perm H. apply E_clauses in H. cbn [corners] in H.
-  cbn [model_step spec_raw]. apply (leaf_ops_agree b s p false). exact H.
+  cbn [model_step spec_raw].
+  apply (leaf_chk_agree b s p
+           (fun pi base c => match c with
+                             | Some _ => (s, OErr EExist)
+                             | None => (seth s (fst (create (heap s) pi base (empty_node KDir perm))), OOk)
+                             end) _ (fun _ _ _ => eq_refl)). exact H.
 Qed.
 
-Lemma enter_new_agree : forall s pi nm c mk, (c = None -> is_dir (heap s) pi = true) ->
-  enter_new s pi nm c mk = s_enter_new s pi nm c mk.
-Proof.
-  intros s pi nm c mk H. unfold enter_new, s_enter_new. destruct c; [reflexivity|].
-  rewrite (H eq_refl). reflexivity.
-Qed.
-
-Lemma refine_entry : forall b s p mk, 
+Lemma refine_entry : forall b s p (mk : nat -> string -> list node -> list node),
   Forall (fun x => fst x = true) (leaf_corner b (heap s) p true) ->
-  with_leaf b s p (fun pi base c => enter_new s pi base c (mk pi base)) =
-  s_with_leaf s p (fun pi nm c => s_enter_new s pi nm c (mk pi nm)).
+  with_leaf b s p (fun pi base c => enter_new s pi c (mk pi base)) =
+  s_with_leaf s p (fun pi nm c => s_enter_new s pi c (mk pi nm)).
 Proof.
-  intros b s p mk H.
-  destruct (leaf_ops_agree b s p true (fun pi base c => enter_new s pi base c (mk pi base)) H) as [H1 H2].
-  rewrite H1. unfold s_with_leaf. destruct (s_leaf (heap s) p) as [[[pi nm] c]|e] eqn:Es; [|reflexivity].
-  apply enter_new_agree. intros _. apply (H2 eq_refl pi nm c eq_refl).
+  intros b s p mk H. unfold enter_new, s_enter_new.
+  apply (leaf_chk_agree b s p
+           (fun pi base c => match c with
+                             | Some _ => (s, OErr EExist)
+                             | None => (seth s (mk pi base (heap s)), OOk)
+                             end) _ (fun _ _ _ => eq_refl)). exact H.
 Qed.
 
 Lemma refine_symlink : forall b s t p, E b s (Symlink t p) = true ->
@@ -171,14 +187,18 @@ Proof.
   intros b s old new H. apply E_clauses in H. cbn [corners] in H. cbn [model_step spec_raw].
   apply Forall_app in H. destruct H as [H1 H]. clauses H.
   apply eres_nat_eqb_eq in C2.
-  destruct (leaf_ops_agree b s new true (fun pi base c =>
-        match get_node b (heap s) old with
-        | inr _ => (s, OErr ENotExist)
-        | inl t => enter_new s pi base c (fun h => add_child h pi base t)
-        end) H1) as [A1 A2].
-  rewrite A1. unfold s_with_leaf. destruct (s_leaf (heap s) new) as [[[pi nm] c]|e] eqn:Es; [|reflexivity].
-  rewrite C2 in *. destruct (s_node (heap s) old) as [t|e] eqn:En.
-  - destruct (is_dir (heap s) t); [discriminate|]. apply enter_new_agree. intros _. apply (A2 eq_refl pi nm c eq_refl).
+  apply (leaf_chk_agree b s new
+           (fun pi base c => match get_node b (heap s) old with
+                             | inr _ => (s, OErr ENotExist)
+                             | inl t => enter_new s pi c (fun h => add_child h pi base t)
+                             end)
+           (fun pi nm c => match s_node (heap s) old with
+                           | inr e => (s, OErr e)
+                           | inl t => if is_dir (heap s) t then (s, OErr EOther)
+                                      else s_enter_new s pi c (fun h => add_child h pi nm t)
+                           end)); [|exact H1].
+  intros pi nm c. rewrite C2 in *. destruct (s_node (heap s) old) as [t|e].
+  - destruct (is_dir (heap s) t); [discriminate | reflexivity].
   - destruct e; try discriminate. reflexivity.
 Qed.
 
@@ -188,7 +208,7 @@ Lemma refine_leaf_simple : forall b s o p,
   E b s o = true -> model_step b s o = spec_raw s o.
 Proof.
   intros b s o p Hc k Hm Hs H. apply E_clauses in H. rewrite Hc in H. rewrite Hm, Hs.
-  apply (leaf_ops_agree b s p false). exact H.
+  apply leaf_ops_agree. exact H.
 Qed.
 
 Lemma refine_readlink : forall b s p, E b s (Readlink p) = true ->
@@ -203,12 +223,8 @@ Lemma refine_remove : forall b s p, E b s (Remove p) = true ->
 Proof.
   intros b s p H. apply E_clauses in H. cbn [corners] in H. cbn [model_step spec_raw].
   apply Forall_app in H. destruct H as [H1 H]. clauses H.
-  destruct (leaf_ops_agree b s p false (fun pi base c =>
-        match c with
-        | None => (s, OErr ENotExist)
-        | Some _ => (seth s (del_child (heap s) pi base), OOk)
-        end) H1) as [A1 _].
-  rewrite A1. unfold s_with_leaf. destruct (s_leaf (heap s) p) as [[[pi nm] [c|]]|e] eqn:Es; try reflexivity.
+  rewrite (leaf_ops_agree b s p _ H1).
+  unfold s_with_leaf. destruct (s_leaf (heap s) p) as [[[pi nm] [c|]]|e] eqn:Es; try reflexivity.
   unfold nonempty in C. destruct (is_dir (heap s) c); [|reflexivity].
   destruct (n_children (get (heap s) c)); [reflexivity | discriminate].
 Qed.
@@ -283,9 +299,10 @@ Proof.
   unfold with_handle. destruct (nth_error (handles s) i) as [hd|] eqn:En; [|reflexivity].
   destruct (h_open hd) eqn:Eo; [|reflexivity].
   apply (handle_clauses s i _ hd En Eo) in H. cbv beta in H. clauses H.
-  rewrite C. cbn [negb]. apply negb_true_iff in C0, C1, C2. rewrite C0, C1.
+  rewrite C. cbn [negb]. apply negb_true_iff in C0, C1. rewrite C0.
+  destruct (off <? 0)%Z; [reflexivity|].
   destruct (off >=? blen (n_data (get (heap s) (h_ino hd))))%Z eqn:Ee.
-  - rewrite andb_true_r in C2. rewrite C2. reflexivity.
+  - rewrite andb_true_r in C1. rewrite C1. reflexivity.
   - rewrite andb_false_r. reflexivity.
 Qed.
 Lemma refine_write : forall b s i p, E b s (Write i p) = true -> model_step b s (Write i p) = spec_raw s (Write i p).
@@ -300,13 +317,7 @@ Proof.
   - rewrite C0. reflexivity.
 Qed.
 Lemma refine_seek : forall b s i off wh, E b s (Seek i off wh) = true -> model_step b s (Seek i off wh) = spec_raw s (Seek i off wh).
-Proof.
-  intros b s i off wh H. apply E_clauses in H. cbn [corners] in H. cbn [model_step spec_raw].
-  unfold with_handle. destruct (nth_error (handles s) i) as [hd|] eqn:En; [|reflexivity].
-  destruct (h_open hd) eqn:Eo; [|reflexivity].
-  apply (handle_clauses s i _ hd En Eo) in H. cbv beta in H. clauses H. apply negb_true_iff in C.
-  destruct wh as [|[|[|wh]]]; try rewrite C; reflexivity.
-Qed.
+Proof. reflexivity. Qed.
 Lemma refine_close : forall b s i, E b s (Close i) = true -> model_step b s (Close i) = spec_raw s (Close i).
 Proof. reflexivity. Qed.
 
